@@ -82,14 +82,29 @@ Proof. intros [z i] t r H; cbn in H; subst z. unfold keepable; destruct r; cbn; 
 Inductive kept (o : dopts) (t : transport) : region -> Prop :=
 | kept_att : forall fmt p f b,
     produce o t fmt p = Some b -> att_flow f = true -> kept o t (keep o t f b)
-| kept_raw : forall l, kept o t (keep o t FRaw (raw_view t l)).
+| kept_raw : forall l, kept o t (keep o t FRaw (raw_view t l))
+| kept_side : forall fmt p f b,                 (* decoded by the side Decoder of a SelfExt extension *)
+    produce o TBytes fmt p = Some b -> att_flow f = true ->
+    kept o t (side_subst o t (keep o TBytes f b)).
 
 Lemma kept_keepable : forall o t r, kept o t r -> keepable o t r = true.
 Proof.
-  intros o t r [fmt p f b Hp Hf | l].
+  intros o t r [fmt p f b Hp Hf | l | fmt p f b Hp Hf].
   - apply consumers_lemma; [exact Hf|]. eapply drivers_lemma; exact Hp.
   - rewrite raw_lemma. destruct o as [[|] i], t; reflexivity.
+  - assert (Hk : keepable o TBytes (keep o TBytes f b) = true).
+    { apply consumers_lemma; [exact Hf|]. eapply drivers_lemma; exact Hp. }
+    destruct (keep o TBytes f b); cbn [side_subst]; try exact Hk; try discriminate.
+    (* the side Decoder kept a view of its input: ZeroCopy is on *)
+    unfold keepable in Hk. cbn in Hk. apply andb_prop in Hk. destruct Hk as [Hz _].
+    destruct o as [z i]. cbn in Hz. subst z. destruct t; reflexivity.
 Qed.
+
+Lemma side_input_lemma : forall o t,
+  side_input o t = Input /\ is_bytes t = true
+  \/ side_input o t = Fresh /\ zerocopy o = true /\ is_bytes t = false
+  \/ side_input o t = ReaderBuf /\ zerocopy o = false /\ is_bytes t = false.
+Proof. intros [[|] i] []; cbn; tauto. Qed.
 
 Lemma owned_lemma : forall o t r, zerocopy o = false -> kept o t r -> owned r = true.
 Proof. intros o t r Hz Hk. rewrite <- (keepable_nozc o t r Hz). apply kept_keepable; exact Hk. Qed.
